@@ -304,6 +304,11 @@ func Monitors(h History, tr *Trace) []Failure {
 				removed[v] = false
 				want := int64(op.Power / 1_000_000)
 				got, in := s.CometNext[vs.Cons]
+				if vs.Jailed {
+					// the request succeeded although the validator is (being) jailed: it neither failed cleanly nor took effect
+					add("C03", "C03/setpower-succeeded-on-jailed-validator", ht, "validator %d requested %d", v, want)
+					add("C13", "C13/setpower-succeeded-on-jailed-validator", ht, "validator %d requested %d", v, want)
+				}
 				if !vs.Jailed && !capInPlay && (!in || got != want) {
 					add("C03", "C03/setpower-not-reflected-in-next-set:"+valClass(prev, v), ht, "validator %d requested %d, next set has %v (%d)", v, want, in, got)
 				}
